@@ -16,7 +16,6 @@ var loopArgExempt = map[string]string{
 	"(*meta.Engine).findIndicesBoundedBacktrackerAt|SearchWithState":          btWhy,
 	"(*meta.Engine).findIndicesBoundedBacktrackerAtWithState|Search":          btWhy,
 	"(*meta.Engine).findIndicesBoundedBacktrackerAtWithState|SearchWithState": btWhy,
-	"(*meta.ReverseInnerSearcher).findIndicesAtImpl|Find":                     "the forward DFA is built from the pattern's suffix part, which begins with the inner literal found at pos: nothing in it looks behind pos",
 }
 
 const btWhy = "UseBoundedBacktracker is selected only for start-anchored patterns (FindIndicesAt answers at>0 before dispatching) and for isSimpleCharClass patterns, which contain no assertions; a re-sliced haystack loses no look-behind context for them"
